@@ -1108,7 +1108,7 @@ class FnTypes:
                     else:
                         out.append(T(a[1]))
                 elif a[0] in ("func", "bound"):
-                    out.append(self.types.return_type(a[1]))
+                    out.append(self._filter_narrow(a[1], e, self.types.return_type(a[1]), env, bound=a[0] == "bound"))
                 elif a[0] == "callable":
                     out.append(a[1])
                 elif a[0] == "cmethod":
@@ -1128,6 +1128,56 @@ class FnTypes:
             else:
                 out.append(ANY)
         return join_all(out) if out else ANY
+
+    def _filter_narrow(self, callee, call: ast.Call, ret, env, bound=False):
+        """A callee that filters what it returns by `isinstance(x, <its parameter p>)` and is given a class for p
+        (`get_all_fields(schema, Field)`) returns only instances of that class: the class atoms of the declared return type that
+        are base classes of it are narrowed."""
+        if ret == ANY or isinstance(getattr(callee, "node", None), ast.Lambda) or callee is None or callee.node is None:
+            return ret
+        node = callee.node
+        pnames = [a.arg for a in node.args.args]
+        if bound and pnames:
+            pnames = pnames[1:]
+        filt = {x.args[1].id for x in ast.walk(node) if isinstance(x, ast.Call) and isinstance(x.func, ast.Name) and x.func.id == "isinstance"
+                and len(x.args) == 2 and isinstance(x.args[1], ast.Name) and x.args[1].id in pnames}
+        if not filt:
+            return ret
+        classes = []
+        for p in filt:
+            actual = None
+            idx = pnames.index(p)
+            if idx < len(call.args) and not any(isinstance(a, ast.Starred) for a in call.args[:idx + 1]):
+                actual = call.args[idx]
+            for kw in call.keywords:
+                if kw.arg == p:
+                    actual = kw.value
+            if actual is None or (isinstance(actual, ast.Constant) and actual.value is None):
+                continue
+            spec = self.class_spec(actual, env)
+            if spec and all(s_ in self.model.classes for s_ in spec):
+                classes += spec
+        if not classes:
+            return ret
+
+        def narrow(t, depth=0):
+            if t == ANY or depth > 4:
+                return t
+            out = set()
+            for a in t:
+                if isinstance(a, str) and a in self.model.classes and any(self.types.is_sub(c, a) and c != a for c in classes):
+                    out |= {c for c in classes if self.types.is_sub(c, a)}
+                elif isinstance(a, tuple) and a[0] in ("list", "set", "iter") and len(a) == 2:
+                    out.add((a[0], narrow(a[1], depth + 1)))
+                elif isinstance(a, tuple) and a[0] == "tuple" and len(a) == 2 and isinstance(a[1], tuple):
+                    out.add(("tuple", tuple(narrow(x, depth + 1) for x in a[1])))
+                else:
+                    out.add(a)
+            return frozenset(out)
+        try:
+            return narrow(ret)
+        except TypeError:
+            return ret
 
     def container_method_ret(self, cont, meth):
         if cont[0] == "dict":
